@@ -6,7 +6,7 @@ from props.c12 import run_k0
 from props import zckdlgen as ZG
 
 PROP = 'C11'
-MODULES = ['ZckModel.Props.C11', 'ZckModel.Props.C04Sound', 'ZckModel.Props.C04Req']
+MODULES = ['ZckModel.Props.C11', 'ZckModel.Props.C04Sound', 'ZckModel.Props.C04Req', 'ZckModel.Props.C04Complete']
 ASSUMPTIONS = [
     "an interruption is a process death inside a write(2) on the target: the k-th write stores none, half or all of its bytes and nothing "
     "after it happens; the file system keeps what completed writes stored (no torn or reordered writes below write(2) granularity)",
